@@ -42,10 +42,22 @@ VIncRaw(ev) ==
 
 (* on the keyed family (a non-last variant of a COLLECTION changes the length) every departure, including a documented
    rejection caused by the stale coordinates, is the known finding; internal errors are never excused *)
-Keyed(raw, coll, V, o) == IF raw # "ok" /\ coll /\ ShiftingNonLast(V) /\ (IsVal(o) \/ Rejected(o))
-                          THEN "collection-lift:sequential-shift" ELSE raw
-VLift(ev) == Keyed(VLiftRaw(ev), ev[5], ev[3], ev[6])
-VInc(ev) == Keyed(VIncRaw(ev), ev[6], ev[4], ev[7])
+(* The known deviation is NAMED, not merely excused: Variants!AlgoLiftSeq is what the sequential application with
+   original coordinates computes.  A wrong answer on the keyed family is the known finding only if it is the answer the
+   deviation predicts (same positions, or a documented rejection where the predicted blocks are ill-formed / empty);
+   any other wrong answer there is reported. *)
+PredictedSeq(l, V) == AlgoLiftSeq(l, V, 1)
+IllFormedPrediction(p) == IsEmptyLoc(p) \/ \E i \in DOMAIN p[1] : p[1][i][1] > p[1][i][2] \/ p[1][i][1] < 0
+MatchesDeviation(l, V, o) ==
+  LET p == PredictedSeq(l, V) IN
+  IF IsVal(o) THEN (IF IsEmptyLoc(p) THEN PosSet(o[2]) = {} ELSE ~IllFormedPrediction(p) /\ PosSet(o[2]) = PosSet(p))
+  ELSE Rejected(o)
+Keyed(raw, coll, V, o, l) == IF raw # "ok" /\ coll /\ ShiftingNonLast(V) /\ (IsVal(o) \/ Rejected(o))
+                             THEN (IF MatchesDeviation(l, V, o) THEN "collection-lift:sequential-shift"
+                                   ELSE "collection-lift:departs-from-the-known-deviation")
+                             ELSE raw
+VLift(ev) == Keyed(VLiftRaw(ev), ev[5], ev[3], ev[6], ev[4])
+VInc(ev) == Keyed(VIncRaw(ev), ev[6], ev[4], ev[7], ev[5])
 (* ["vcf", records = <<pos0, end0, alts = <<chars>>..., ps (or -1 unphased)>>..., groups = << <<start, end, alt>>... >>...]
    one variant per alternative allele; phased records grouped by phase set, unphased ones alone *)
 VVcf(ev) ==
@@ -73,7 +85,7 @@ VIncCdsRaw(ev) ==
   ELSE IF PosSet(o[2]) # SemLiftPos(l, V) \/ IsEmptyLoc(o[2]) \/ St(o[2]) # St(l) \/ o[3] # Extract(SemLiftLoc(l, V), Alt(R, V)) THEN
        (IF coll /\ ShiftingNonLast(V) THEN "collection-lift:sequential-shift" ELSE "incorporate-cds:cds-is-edited")
   ELSE "ok"
-VIncCds(ev) == Keyed(VIncCdsRaw(ev), ev[6], ev[3], ev[7])
+VIncCds(ev) == Keyed(VIncCdsRaw(ev), ev[6], ev[3], ev[7], ev[5])
 
 Verdict(ev) == CASE ev[1] = "inccds" -> VIncCds(ev) [] ev[1] = "alt" -> VAlt(ev) [] ev[1] = "lift" -> VLift(ev) [] ev[1] = "inc" -> VInc(ev)
                  [] ev[1] = "vcf" -> VVcf(ev) [] OTHER -> "unknown-op"
